@@ -17,10 +17,14 @@
 (*             offsets and reader position (advanced by the Do* formulas)   *)
 (*           plos, phis / pups, plws           what the documentation says   *)
 (*             the request means, fixed when the subscription is created    *)
-(*           n, last                          number of messages delivered  *)
-(*             so far and the last delivered offset (from what was          *)
+(*           held, pendst                     a message / final status the  *)
+(*             loop is handing over to a subscriber that stopped receiving  *)
+(*           n, last, hold                    number of messages delivered  *)
+(*             so far, the last delivered offset, the record that followed  *)
+(*             it when the subscriber stopped receiving (from what was      *)
 (*             observed)                                                    *)
-(*           st   "" not started | "wait" | terminal gRPC code name         *)
+(*           st   "" not started | "wait" | "more" (subscriber stopped      *)
+(*                receiving) | terminal gRPC code name                      *)
 (*   obs   result of the last call [a, err, got, st]: error class returned  *)
 (*         by Subscribe itself, records delivered by this call, state of    *)
 (*         the subscription afterwards                                      *)
@@ -150,12 +154,20 @@ SubErr(req) ==
 \* records a forward reader positioned at `from` can return now
 FwdAvail(from) == SelectSeq(log, LAMBDA r : r.off >= from /\ r.off <= hw)
 
-\* one run of the forward subscribe loop until it blocks or ends: [got, st, pos]
+NoRec == [off |-> -1, ts |-> -1, key |-> ""]
+
+\* one run of the forward subscribe loop until it blocks or ends: [got, st, pos, parked].
+\* s.held = a message the loop has already read from the log and is handing over
+\* (the subscriber had stopped receiving); s.pendst = the final status the loop has
+\* already decided on and is handing over.
 FwdLoop(s) ==
+  IF s.pendst # "" THEN [got |-> <<>>, st |-> s.pendst, pos |-> s.pos, parked |-> s.parked]
+  ELSE
   LET from  == IF s.parked THEN s.base ELSE s.pos
-      av0   == FwdAvail(from)
-      \* messages a parked reader returns below the requested start
-      av    == IF Fix.parked THEN SelectSeq(av0, LAMBDA r : r.off >= s.start) ELSE av0
+      rd    == FwdAvail(from)
+      hd    == IF s.held = NoRec THEN <<>> ELSE <<s.held>>
+      \* messages a parked reader returns below the requested start are skipped
+      av    == hd \o (IF Fix.parked THEN SelectSeq(rd, LAMBDA r : r.off >= s.start) ELSE rd)
       hit   == IF s.stop = -1 THEN {}
                ELSE {i \in 1..Len(av) : IF Fix.absent THEN av[i].off >= s.stop ELSE av[i].off = s.stop}
       got   == IF hit = {} THEN av
@@ -164,8 +176,20 @@ FwdLoop(s) ==
       st    == IF hit # {} THEN RE
                ELSE IF ro /\ hw = Newest THEN RE
                ELSE "wait"
-      pos   == IF av0 = <<>> THEN from ELSE IF hit = {} THEN Last(av0).off + 1 ELSE from
-  IN [got |-> got, st |-> st, pos |-> pos, parked |-> s.parked /\ av0 = <<>>]
+      pos   == IF rd = <<>> THEN from ELSE IF hit = {} THEN Last(rd).off + 1 ELSE from
+  IN [got |-> got, st |-> st, pos |-> pos, parked |-> s.parked /\ rd = <<>>]
+
+\* the subscriber receives only n messages of that run (n = -1: all of it) and then
+\* stops receiving ("more"): the loop reads one more message and blocks handing it
+\* over, or blocks handing over its final status, or blocks on the HW
+Cut(r, n) ==
+  IF n = -1 \/ Len(r.got) < n
+  THEN [got |-> r.got, st |-> r.st, pos |-> r.pos, parked |-> r.parked, held |-> NoRec, pendst |-> ""]
+  ELSE IF Len(r.got) > n
+  THEN [got |-> SubSeq(r.got, 1, n), st |-> "more", pos |-> r.got[n + 1].off + 1, parked |-> FALSE,
+        held |-> r.got[n + 1], pendst |-> ""]
+  ELSE [got |-> r.got, st |-> "more", pos |-> r.pos, parked |-> r.parked, held |-> NoRec,
+        pendst |-> IF r.st = "wait" THEN "" ELSE r.st]
 
 \* records of the segment that holds offset e, as the reverse scanner finds
 \* its first slot: e - base counted in index entries (wrong on sparse segments)
@@ -241,8 +265,8 @@ PLws(req) ==
 
 NoSub == [open |-> FALSE, req |-> [start |-> "EARLIEST", so |-> 0, stt |-> 0, stop |-> "ON_CANCEL",
                                   po |-> 0, pt |-> 0, rev |-> FALSE],
-          start |-> 0, stop |-> -1, pos |-> 0, parked |-> FALSE, base |-> 0,
-          plos |-> {}, phis |-> {}, pups |-> {}, plws |-> {}, n |-> 0, last |-> -1, st |-> ""]
+          start |-> 0, stop |-> -1, pos |-> 0, parked |-> FALSE, base |-> 0, held |-> NoRec, pendst |-> "",
+          plos |-> {}, phis |-> {}, pups |-> {}, plws |-> {}, n |-> 0, last |-> -1, st |-> "", hold |-> NoRec]
 
 -----------------------------------------------------------------------------
 (* Actions as the code performs them *)
@@ -257,45 +281,58 @@ NewSub(req) ==
   LET st == ReaderStart(req) sp == StopOf(req).off
       pk == ~req.rev /\ (st > hw \/ log = <<>>) IN
   [open |-> TRUE, req |-> req, start |-> st, stop |-> sp, pos |-> st, parked |-> pk,
-   base |-> hw + 1,
+   base |-> hw + 1, held |-> NoRec, pendst |-> "",
    plos |-> PLos(req), phis |-> PHis(req), pups |-> PUps(req), plws |-> PLws(req),
-   n |-> 0, last |-> -1, st |-> ""]
+   n |-> 0, last |-> -1, st |-> "", hold |-> NoRec]
 
-\* bookkeeping of what was observed (same for the code's and the documented view)
-Seen(s, got, st) == [s EXCEPT !.n = @ + Len(got),
-                              !.last = IF got = <<>> THEN @ ELSE Last(got).off,
-                              !.st = st]
+\* bookkeeping of what was observed (same for the code's and the documented view).
+\* hold = the committed record that follows the last delivered one at this moment:
+\* a subscription that is not drained may already have read it.
+Seen(s, got, st) ==
+  LET lst == IF got = <<>> THEN s.last ELSE Last(got).off
+      nx  == SelectSeq(log, LAMBDA r : r.off > lst /\ r.off <= hw /\ (s.n + Len(got) > 0 \/ \E lo \in s.plos : r.off >= lo))
+  IN [s EXCEPT !.n = @ + Len(got), !.last = lst, !.st = st,
+               !.hold = IF st = "more" /\ nx # <<>> THEN nx[1] ELSE NoRec]
 
-\* Subscribe(req) followed by running the loop until it blocks or ends, as the
-\* code does it: [err, got, st, pos, parked]
-SubRun(req) ==
+\* Subscribe(req) followed by running the loop until it blocks or ends (or until the
+\* subscriber has received n messages), as the code does it
+SubRun(req, n) ==
   LET e == SubErr(req) s == NewSub(req) IN
-  IF e # "" THEN [err |-> e, got |-> <<>>, st |-> e, pos |-> s.pos, parked |-> s.parked]
+  IF e # "" THEN [err |-> e, got |-> <<>>, st |-> e, pos |-> s.pos, parked |-> s.parked, held |-> NoRec, pendst |-> ""]
   ELSE IF req.rev
-       THEN LET r == RevLoop(s) IN [err |-> "", got |-> r.got, st |-> r.st, pos |-> s.pos, parked |-> FALSE]
-       ELSE LET r == FwdLoop(s) IN [err |-> "", got |-> r.got, st |-> r.st, pos |-> r.pos, parked |-> r.parked]
+       THEN LET r == RevLoop(s) IN [err |-> "", got |-> r.got, st |-> r.st, pos |-> s.pos, parked |-> FALSE,
+                                    held |-> NoRec, pendst |-> ""]
+       ELSE LET c == Cut(FwdLoop(s), n) IN
+            [err |-> "", got |-> c.got, st |-> c.st, pos |-> c.pos, parked |-> c.parked, held |-> c.held, pendst |-> c.pendst]
 
 \* the subscription record after Subscribe(req) delivered `got` and reached `st`
-SubRec(req, got, st) ==
-  LET m == SubRun(req) IN
-  [Seen(NewSub(req), got, st) EXCEPT !.pos = m.pos, !.parked = m.parked, !.open = (st = "wait")]
+SubRec(req, n, got, st) ==
+  LET m == SubRun(req, n) IN
+  [Seen(NewSub(req), got, st) EXCEPT !.pos = m.pos, !.parked = m.parked, !.held = m.held, !.pendst = m.pendst,
+                                     !.open = (st \in {"wait", "more"})]
 
-DoSub(id, req) ==
-  LET m == SubRun(req) IN
-  /\ subs' = [subs EXCEPT ![id] = SubRec(req, m.got, m.st)]
+DoSub(id, req, n) ==
+  LET m == SubRun(req, n) IN
+  /\ subs' = [subs EXCEPT ![id] = SubRec(req, n, m.got, m.st)]
   /\ obs' = [a |-> "Sub", err |-> m.err, got |-> m.got, st |-> m.st]
   /\ UNCHANGED <<log, segs, hw, ro>>
 
-\* the record of an open (waiting) forward subscription after its loop ran again
-DrainRec(id, got, st) ==
-  LET r == FwdLoop(subs[id]) IN
-  [Seen(subs[id], got, st) EXCEPT !.pos = r.pos, !.parked = r.parked, !.open = (st = "wait")]
+\* a message the loop was handing over while the log was cleaned: if it is gone from
+\* the log, whether the loop had read it before the clean is a matter of scheduling
+Holding(s, useHeld) == IF useHeld THEN s ELSE [s EXCEPT !.held = NoRec]
 
-DoDrain(id) ==
+\* the record of an open forward subscription after its loop ran again
+DrainRec(id, n, useHeld, got, st) ==
+  LET s0 == Holding(subs[id], useHeld)
+      c  == Cut(FwdLoop(s0), n) IN
+  [Seen(s0, got, st) EXCEPT !.pos = c.pos, !.parked = c.parked, !.held = c.held, !.pendst = c.pendst,
+                            !.open = (st \in {"wait", "more"})]
+
+DoDrain(id, n, useHeld) ==
   /\ subs[id].open
-  /\ LET r == FwdLoop(subs[id]) IN
-     /\ subs' = [subs EXCEPT ![id] = DrainRec(id, r.got, r.st)]
-     /\ obs' = [a |-> "Drain", err |-> "", got |-> r.got, st |-> r.st]
+  /\ LET c == Cut(FwdLoop(Holding(subs[id], useHeld)), n) IN
+     /\ subs' = [subs EXCEPT ![id] = DrainRec(id, n, useHeld, c.got, c.st)]
+     /\ obs' = [a |-> "Drain", err |-> "", got |-> c.got, st |-> c.st]
   /\ UNCHANGED <<log, segs, hw, ro>>
 
 DoCancel(id) ==
@@ -331,6 +368,17 @@ DoReadonly(b) ==
   /\ obs' = [a |-> "Readonly", err |-> "", got |-> <<>>, st |-> ""]
   /\ UNCHANGED <<log, segs, hw, subs>>
 
+\* the cleaner removes committed records from the segments before the active one
+\* (which ones is Cleaner.tla's business: here any set `gone`) and drops emptied segments
+Cleanable == {r.off : r \in {log[i] : i \in 1..Len(log)}} \cap {o \in 0..hw : o < Last(segs)}
+DoClean(gone) ==
+  /\ gone \subseteq Cleanable
+  /\ log' = SelectSeq(log, LAMBDA r : r.off \notin gone)
+  /\ segs' = LET keep == {k \in 1..Len(segs) : k = Len(segs) \/ SegRecs(log', segs, k) # <<>>}
+              IN SelectSeq(segs, LAMBDA b : \E k \in keep : segs[k] = b)
+  /\ obs' = [a |-> "Clean", err |-> "", got |-> <<>>, st |-> ""]
+  /\ UNCHANGED <<hw, ro, subs>>
+
 -----------------------------------------------------------------------------
 (* What property C10 demands *)
 
@@ -342,15 +390,22 @@ InRange(lo, hi) == SelectSeq(log', LAMBDA r : r.off >= lo /\ r.off <= hi /\ r.of
 \* (stop passed, or end of a read-only partition), waiting otherwise.
 \* A range whose stop lies before its start (or before every message) delivers nothing and must end
 \* (any status: the repository documents InvalidArgument, lookups may fail).
-P_Fwd(s, got, st) ==
+P_Fwd(s, got, st, n) ==
   LET los == IF s.n = 0 THEN s.plos ELSE {s.last + 1}
-      nw  == NewestOf(log', segs') IN
+      nw  == NewestOf(log', segs')
+      \* a subscriber that receives only n messages gets the first n and sees no status
+      Ok(E, fin) == IF n = -1 \/ Len(E) < n THEN got = E /\ st = fin
+                    ELSE got = SubSeq(E, 1, n) /\ st = "more"
+  IN
   \E hi \in s.phis :
+    LET fin == IF hw' >= hi \/ (ro' /\ hw' = nw) THEN RE ELSE "wait" IN
     \/ /\ s.n = 0 /\ (hi = -1 \/ \E lo \in los : hi < lo)
-       /\ got = <<>> /\ st \notin {"wait", ""}
-    \/ \E lo \in los :
-         /\ got = InRange(lo, hi)
-         /\ st = IF hw' >= hi \/ (ro' /\ hw' = nw) THEN RE ELSE "wait"
+       /\ got = <<>> /\ st \notin {"wait", "", "more"}
+    \/ \E lo \in los : Ok(InRange(lo, hi), fin)
+    \* the record that followed the last delivered one when the subscriber stopped
+    \* receiving may have been read then and be delivered now, cleaned or not
+    \/ /\ s.hold # NoRec /\ s.hold.off <= hi
+       /\ Ok(<<s.hold>> \o InRange(s.hold.off + 1, hi), fin)
 
 \* reverse: exactly the committed retained records from the documented first one
 \* down to the documented last one, in decreasing order, then ends (no status is
@@ -359,14 +414,14 @@ P_Rev(s, got, st) ==
   /\ st \notin {"wait", ""}
   /\ \E up \in s.pups, lw \in s.plws : got = Rev(InRange(lw, up))
 
-P_Sub(id, req) ==
+P_Sub(id, req, n) ==
   /\ log' = log /\ hw' = hw
   /\ LET s == NewSub(req) IN
-     IF req.rev THEN P_Rev(s, obs'.got, obs'.st) ELSE P_Fwd(s, obs'.got, obs'.st)
+     IF req.rev THEN P_Rev(s, obs'.got, obs'.st) ELSE P_Fwd(s, obs'.got, obs'.st, n)
 
-P_Drain(id) ==
+P_Drain(id, n) ==
   /\ log' = log /\ hw' = hw
-  /\ P_Fwd(subs[id], obs'.got, obs'.st)
+  /\ P_Fwd(subs[id], obs'.got, obs'.st, n)
 
 P_Same == log' = log /\ hw' = hw
 
